@@ -143,7 +143,7 @@ def FrameStream_Read : List String := [
   "end",
   "if s.readBuf != nil && s.readOff < len(s.readBuf)",
   "n = copy(p, s.readBuf[s.readOff:])",
-  "s.readOff = n",
+  "s.readOff += n",
   "if s.readOff >= len(s.readBuf)",
   "s.readBuf = nil",
   "s.readOff = 0",
